@@ -1,6 +1,11 @@
 // Package methzoo is a corpus of struct types with methods of every receiver kind, export status and name pattern (C06).
 package methzoo
 
+import (
+	dupa "github.com/tencent/goom/verifharness/zoo/dupa/dup"
+	dupb "github.com/tencent/goom/verifharness/zoo/dupb/dup"
+)
+
 // A has pointer- and value-receiver methods, names that are prefixes of one another, exported and unexported.
 type A struct {
 	K int
@@ -156,6 +161,10 @@ func Call(m int, k int, x int) int {
 		return (&G[string]{K: k}).scale(x)
 	case 29:
 		return (&G[int]{K: k}).weight(x)
+	case 30:
+		return (&dupa.T{K: k}).Get(x)
+	case 31:
+		return (&dupb.T{K: k}).Get(x)
 	}
 	return -1
 }
@@ -164,10 +173,10 @@ func Call(m int, k int, x int) int {
 var Names = []string{"(*A).Get", "(*A).GetMore", "(*A).G", "(*A).get", "(*A).getMore", "A.Val", "A.ValMore", "A.val",
 	"(*B).Get", "B.Val", "(*B).get", "(*c).Run", "(*c).run", "c.RunVal",
 	"(*G[int]).Id", "(*G[MyInt]).Id", "(*G[string]).Id", "(*G[*A]).Id", "(*G[*B]).Id", "(*G[int]).Other", "(*G[string]).Other", "A.Val via pointer",
-	"G[int].ValId", "G[string].ValId", "G[MyInt].ValId", "(*A).getf", "(*A).Getf", "(*G[string]).weight", "(*G[string]).scale", "(*G[int]).weight"}
+	"G[int].ValId", "G[string].ValId", "G[MyInt].ValId", "(*A).getf", "(*A).Getf", "(*G[string]).weight", "(*G[string]).scale", "(*G[int]).weight", "dupa/(*dup.T).Get", "dupb/(*dup.T).Get"}
 
 // Consts are the additive constants of the originals.
-var Consts = []int{1, 2, 3, 4, 5, 6, 7, 8, 11, 12, 13, 21, 22, 23, 31, 31, 31, 31, 31, 32, 32, 6, 33, 33, 33, 41, 42, 34, 14, 34}
+var Consts = []int{1, 2, 3, 4, 5, 6, 7, 8, 11, 12, 13, 21, 22, 23, 31, 31, 31, 31, 31, 32, 32, 6, 33, 33, 33, 41, 42, 34, 14, 34, 51, 52}
 
 // NewC returns an instance of the unexported type (for type-directed APIs).
 func NewC(k int) interface{} { return &c{K: k} }
